@@ -7,9 +7,11 @@ import (
 	"os"
 	"path/filepath"
 	"sort"
+	"strconv"
 	"strings"
 	"sync"
 	"sync/atomic"
+	"time"
 
 	"golang.org/x/tools/go/packages"
 	"golang.org/x/tools/go/ssa"
@@ -370,6 +372,15 @@ func (p *Program) RunHarnessOn(opt *Options, pool *Pool) *HarnessResult {
 	if opt.MaxPaths == 0 {
 		opt.MaxPaths = 400000
 	}
+	// wall-clock budget of one instance (param timeBudget, seconds): the unchanged tree needs at
+	// most a few minutes per instance; changed code can make the path space or the queries
+	// explode, and a run that never ends decides nothing
+	budget := 1500 * time.Second
+	if v, err := strconv.Atoi(opt.Params["timeBudget"]); err == nil && v > 0 {
+		budget = time.Duration(v) * time.Second
+	}
+	started := time.Now()
+	timedOut := false
 	var mu sync.Mutex
 	done := make(chan struct{})
 	outstanding := 1
@@ -382,6 +393,13 @@ func (p *Program) RunHarnessOn(opt *Options, pool *Pool) *HarnessResult {
 			hr.Paths++
 			hr.merge(res, opt)
 			var todo [][]Dec
+			if !timedOut && time.Since(started) > budget {
+				timedOut = true
+				hr.Unwinds = append(hr.Unwinds, fmt.Sprintf("time budget of %s exceeded for this instance: exploration stopped", budget))
+			}
+			if timedOut {
+				forks = nil
+			}
 			if len(hr.Findings) >= 40 {
 				// enough counterexamples for this instance: further exploration cannot change the
 				// verdict (confirmed ones make the check fail, unconfirmed ones leave it undecided)
